@@ -61,6 +61,50 @@ def undef_reviewed(f, name):
     return None
 
 
+def _covered_by_same_guards(prog, sa_, attr, witness):
+    """The possibly-early read `witness` = (function, statement) of self.attr is correlated with a conditional write:
+    a call that dominates the read (a base constructor / helper on the same receiver) writes self.attr under tests that
+    are all among the tests guarding the read, and the read's function does not re-assign the attributes those tests read."""
+    from ..q import guard_facts, nfacts
+
+    f, st = witness
+    fa = FA(f)
+    try:
+        rid = fa.cfg.id_of(st)
+    except Exception:
+        return False
+    facts_r = set(nfacts(guard_facts(fa, rid)))
+    if not facts_r:
+        return False
+
+    def writes_with_guards(g, seen):
+        out = []
+        if g in seen:
+            return out
+        seen.add(g)
+        ga = FA(g)
+        for node in ga.nodes():
+            for k, x in sa_.node_events(g, ga.cfg, node):
+                if k == "w" and x == attr:
+                    out.append(set(nfacts(guard_facts(ga, node.id))))
+                elif k == "call":
+                    base = set(nfacts(guard_facts(ga, node.id)))
+                    out += [base | w_ for w_ in writes_with_guards(x, seen)]
+        return out
+
+    stored_here = {n.attr for n in walk_no_nested(f.node) if isinstance(n, ast.Attribute) and isinstance(n.ctx, ast.Store) and isinstance(n.value, ast.Name) and n.value.id == "self"}
+    for node in fa.nodes():
+        if node.id == rid or not fa.dominates(node.id, rid):
+            continue
+        for k, x in sa_.node_events(f, fa.cfg, node):
+            if k != "call":
+                continue
+            for gw in writes_with_guards(x, set()):
+                if gw and gw <= facts_r and not any(f"self.{a_}" in t for t, _ in gw for a_ in stored_here):
+                    return True
+    return False
+
+
 def run(ctx):
     prog = ctx.prog
     fns = prog.all_functions
@@ -74,6 +118,35 @@ def run(ctx):
     ctx.extra["attr_reads_decided"] = n_dec
     ctx.extra["attr_reads_undecidable_external_base"] = n_und
     ctx.floor("C20.1", 2000)
+
+    # C20.1 R-INIT: definite assignment of instance attributes inside constructors ------------------
+    # (R-ATTR asks whether *some* method defines the attribute; this asks whether the constructor can read it
+    #  on a path on which neither it nor the base constructors / helpers it called have written it yet)
+    from ..rules.selfattrs import SelfAttrs
+
+    n_init = 0
+    for c in sorted(prog.classes.values(), key=lambda k: k.qual):
+        init = prog.find_method(c, "__init__")
+        if init is None:
+            continue
+        sa_ = SelfAttrs(prog, c)
+        inst, classlevel = set(), set()
+        for k in prog.mro(c):
+            classlevel |= set(k.class_attrs) | set(k.methods) | set(getattr(k, "setters", {}))
+            for m_ in k.methods.values():
+                for x in walk_no_nested(m_.node):
+                    if isinstance(x, ast.Attribute) and isinstance(x.value, ast.Name) and x.value.id == "self" and isinstance(x.ctx, ast.Store):
+                        inst.add(x.attr)
+        for a in sorted(inst - classlevel):
+            w = sa_.needs(init, a)
+            n_init += 1
+            if w is not None and _covered_by_same_guards(prog, sa_, a, w):
+                ctx.ob("R-INIT", "C20.1", w[0], f"constructing {c.name}: self.{a} is read only under the tests under which an earlier constructor wrote it", True, f"`{src(w[1])[:80]}`", node=w[1])
+                continue
+            if w is not None:
+                ctx.ob("R-INIT", "C20.1", w[0], f"constructing {c.name}: self.{a} is written before it is read on every path through the constructor chain", False, f"`{src(w[1])[:80]}` can run before any write of self.{a} (written only conditionally by the constructors / helpers called so far)", node=w[1])
+    ctx.ob("R-INIT", "C20.1", "nessai", "definite-assignment analysis ran over every (class, instance attribute) pair of every constructor chain", n_init >= 600, f"{n_init} pairs")
+    ctx.extra["constructor_attribute_pairs_checked"] = n_init
 
     # C20.2 R-SIG -------------------------------------------------------
     def ob_sig(f, call, g, ok, detail):
